@@ -120,6 +120,25 @@ def fact_label_suffix():
     return coq_string(found[0])
 
 
+def fact_relabel_resets_definition():
+    """partition_problem, where it renames a TwoQubitQPDGate (`.label = f"..."`), also drops the cached definition
+    (`.definition = None`) in the same block, so that the halves are rebuilt from the new label whatever the call history."""
+    fn = _fn("cutting_decomposition.py", "partition_problem")
+    for x in _walk_no_nested(fn):
+        body = getattr(x, "body", None)
+        if not isinstance(body, list):
+            continue
+        lab = [y for y in body if isinstance(y, ast.Assign) and len(y.targets) == 1
+               and isinstance(y.targets[0], ast.Attribute) and y.targets[0].attr == "label"]
+        if not lab:
+            continue
+        rst = [y for y in body if isinstance(y, ast.Assign) and len(y.targets) == 1
+               and isinstance(y.targets[0], ast.Attribute) and y.targets[0].attr == "definition"
+               and isinstance(y.value, ast.Constant) and y.value.value is None and y.lineno > lab[0].lineno]
+        return "true" if len(lab) == 1 and len(rst) == 1 else "false"
+    raise Shape("no block assigning .label found in partition_problem")
+
+
 FACTS = [
     ("c10_separate_calls", "list string", fact_separate_calls),
     ("c10_problem_calls", "list string", fact_problem_calls),
@@ -127,4 +146,5 @@ FACTS = [
     ("c10_auto_ignores_qpd2", "bool", fact_auto_ignores_qpd2),
     ("c10_keep_idle_default", "bool", fact_keep_idle_default),
     ("c10_label_suffix", "string", fact_label_suffix),
+    ("c10_relabel_resets_definition", "bool", fact_relabel_resets_definition),
 ]
